@@ -54,7 +54,8 @@ type c11Case struct {
 	delayMs  int  // the delay in ms; 0 = the default c11Delay (2 ms)
 	// IsTerminalError: 0 nil; 1 true exactly for the terminal errors (T); 2 constant true (also for a
 	// nil error: every error is terminal, a success never is); 3 "not retryable" (true for nil and
-	// for T, false for the retryable errors E)
+	// for T, false for the retryable errors E); 4 "cancelled" (true exactly for cancellation-class
+	// errors: outcome C and the errors of failed awaitStart calls; false for nil, E and T)
 	term   int
 	cancelIn int    // -1: never; k: the caller cancels from inside the k-th call of the IsTerminalError predicate, i.e. while the main loop is handling a result
 	pauses [][2]int // {k, ms}: before the k-th arrival wait until ms have passed since the first window closed
@@ -519,6 +520,10 @@ func c11Run(cs *c11Case) string {
 		cfg.IsTerminalError = func(error) bool { return true }
 	case 3:
 		cfg.IsTerminalError = func(err error) bool { return !errors.Is(err, errC11Retryable) }
+	case 4:
+		// true exactly for cancellation-class errors: outcome C, and the errors posted by goroutines
+		// whose awaitStart failed (the predicate is applied to those as well)
+		cfg.IsTerminalError = func(err error) bool { return errors.Is(err, context.Canceled) }
 	}
 	if cs.sorter != nil {
 		order := cs.sorter
@@ -848,7 +853,7 @@ func c11Random(r *rng) *c11Case {
 	} else {
 		c.hedge = r.chance(1, 25)
 	}
-	c.term = pick(r, []int{0, 0, 0, 0, 1, 1, 1, 2, 2, 3})
+	c.term = pick(r, []int{0, 0, 0, 0, 1, 1, 1, 2, 2, 3, 3, 4, 4})
 	if c.kind == 'd' {
 		c.min, c.term = false, 0
 		c.hedge = r.chance(1, 3)
@@ -1074,7 +1079,7 @@ func c11Generate(e *env) []*c11Case {
 		return a
 	}
 	// kind of the terminal-error predicate of an enumerated case that has one (see c11Case.term)
-	tkind := func() int { return pick(rs, []int{1, 1, 2, 3}) }
+	tkind := func() int { return pick(rs, []int{1, 1, 2, 3, 4}) }
 	c11Exhaustive(1, all, nil, tkind, add)
 	if e.quick {
 		c11Exhaustive(2, sample(1, 4), addr, tkind, add)
